@@ -58,7 +58,7 @@ func runRoundtrip(raw json.RawMessage) (interface{}, error) {
 
 // universe with tags that exercise the quoting of the text rendering (D07) and options
 var rtUniverse = func() rt.Universe {
-	u := rt.Small
+	u := c05Small
 	u.Tags = []string{"a", "b", "c", `a\b`, "d e", "ü"}
 	u.Weights = []string{"", "", "", "0", "0.1", "0.25", "0.5", "0.5", "1", "2", "-1", "0.0001", "0.3333", "0.00004", "0.12345", "0.03125"}
 	return u
@@ -69,7 +69,7 @@ func genRoundtrip(r *hx.Rand, i int) interface{} {
 	if r.Chance(1, 10) {
 		n = 1 + r.Intn(30)
 	}
-	u := &rt.Small
+	u := &c05Small
 	if r.Chance(1, 2) {
 		u = &rtUniverse
 	}
